@@ -51,7 +51,9 @@ package sm4
 //@ requires src: len(src) >= 16
 //@ assigns dst[0:256]
 
-//@ func sm4.cryptoBlockAsmX16
+// one-line Go wrapper around cryptoBlockAsmX16Internal(rk, dst, src, dst); its contract is assumed (raw pointer
+// parameters have no span the verifier could start from), the assembly routine behind it is checked by asmvc.
+//@ assume func sm4.cryptoBlockAsmX16
 //@ mode bv
 //@ requires rk: span(rk) >= 32
 //@ requires dst: span(dst) >= 256
